@@ -213,7 +213,7 @@ func c03hCheck(sc *hhScenario, obs *hhObs, r *vrt.Result, report func(kind, deta
 				if len(obs.Stuck) > 0 {
 					full = obs.Stuck[0]
 					f := strings.Fields(full)
-					sig = f[0] + " " + f[1] + fmt.Sprintf(" retried=%v", obs.Attempts[rq.Token] > 1)
+					sig = f[0] + " " + f[1] + " " + f[2] + fmt.Sprintf(" retried=%v", obs.Attempts[rq.Token] > 1)
 				}
 				sig += fmt.Sprintf(" deviations=%d", r.Cost)
 				detail := fmt.Sprintf("scenario %s, request %s on connection %d; state: %s; blocked=%v log=%v", sc.Name, rq.Token, ci, full, r.Blocked, obs.Log)
